@@ -25,7 +25,7 @@ def main():
     hd = vlib.harness_dir()
     binp = vlib.go_build("./c02", "c02")
     gen = os.path.join(hd, "gen")
-    variants = 3 if thorough else 1
+    variants = 4 if thorough else 1
     p = vlib.run([binp, "emit", ppath, gen, "500", str(variants)])
     s = json.loads(p.stdout.decode().splitlines()[-1])
     dirs = sorted(os.listdir(gen))
